@@ -189,6 +189,43 @@ static void blk_crl_entry_exts(void) {
 				if (snl != SER[i].n || memcmp(sn, SER[i].b, snl) || d != rd + i || (withx ? (!ee || !eel) : (ee || eel))) { vh_viol("C15:crl-entry-extensions:walk-reports-another-entrys-fields", "\"ext_mask\":%d,\"order\":%d,\"position\":%d,\"has_extensions\":%d,\"reported_len\":%zu", em, order, j, withx, eel); break; } j++; } } }
 		vh_sample("{\"block\":\"crl-entry-extensions\",\"ext_mask\":%d,\"order\":%d,\"entries\":%d,\"crllen\":%zu}", em, order, nent, cl); }
 }
+/* extension builders are appenders: for every builder B and every position (first, second, third element of the list) the list after the call is the list before it
+   followed by exactly what B writes into an empty list, the reported length grows by exactly that much, and octets behind the new end are untouched */
+typedef int (*bld_f)(uint8_t *exts, size_t *el, size_t max);
+static uint8_t B_KID[20], B_GN[64]; static size_t B_GNL; static SM2_KEY *B_KEY;
+static int b_aki(uint8_t *e, size_t *l, size_t m) { return x509_exts_add_authority_key_identifier(e, l, m, X509_non_critical, B_KID, 20, NULL, 0, NULL, 0); }
+static int b_aki_def(uint8_t *e, size_t *l, size_t m) { return x509_exts_add_default_authority_key_identifier(e, l, m, B_KEY); }
+static int b_ski(uint8_t *e, size_t *l, size_t m) { return x509_exts_add_subject_key_identifier(e, l, m, X509_non_critical, B_KID, 20); }
+static int b_ski_ex(uint8_t *e, size_t *l, size_t m) { return x509_exts_add_subject_key_identifier_ex(e, l, m, X509_non_critical, B_KEY); }
+static int b_ku(uint8_t *e, size_t *l, size_t m) { return x509_exts_add_key_usage(e, l, m, X509_critical, X509_KU_DIGITAL_SIGNATURE | X509_KU_KEY_CERT_SIGN); }
+static int b_san(uint8_t *e, size_t *l, size_t m) { return x509_exts_add_subject_alt_name(e, l, m, X509_non_critical, B_GN, B_GNL); }
+static int b_ian(uint8_t *e, size_t *l, size_t m) { return x509_exts_add_issuer_alt_name(e, l, m, X509_non_critical, B_GN, B_GNL); }
+static int b_pc(uint8_t *e, size_t *l, size_t m) { return x509_exts_add_policy_constraints(e, l, m, X509_critical, 2, 3); }
+static int b_bc(uint8_t *e, size_t *l, size_t m) { return x509_exts_add_basic_constraints(e, l, m, X509_critical, 1, 2); }
+static int b_eku(uint8_t *e, size_t *l, size_t m) { int kp[2] = { OID_kp_server_auth, OID_kp_client_auth }; return x509_exts_add_ext_key_usage(e, l, m, X509_non_critical, kp, 2); }
+static int b_cdp(uint8_t *e, size_t *l, size_t m) { return x509_exts_add_crl_distribution_points(e, l, m, X509_non_critical, "http://a.example/c.crl", 22, NULL, 0); }
+static int b_iap(uint8_t *e, size_t *l, size_t m) { return x509_exts_add_inhibit_any_policy(e, l, m, X509_critical, 4); }
+static int b_aia(uint8_t *e, size_t *l, size_t m) { return x509_exts_add_authority_info_access(e, l, m, X509_non_critical, "http://a.example/ca.crt", 23, "http://a.example/ocsp", 21); }
+static int b_crlnum(uint8_t *e, size_t *l, size_t m) { return x509_crl_exts_add_crl_number(e, l, m, X509_non_critical, 77); }
+static int b_delta(uint8_t *e, size_t *l, size_t m) { return x509_crl_exts_add_delta_crl_indicator(e, l, m, X509_critical, 5); }
+static int b_crl_aki(uint8_t *e, size_t *l, size_t m) { return x509_crl_exts_add_authority_key_identifier(e, l, m, X509_non_critical, B_KID, 20, NULL, 0, NULL, 0); }
+static int b_crl_aki_def(uint8_t *e, size_t *l, size_t m) { return x509_crl_exts_add_default_authority_key_identifier(e, l, m, B_KEY); }
+static int b_crl_ian(uint8_t *e, size_t *l, size_t m) { return x509_crl_exts_add_issuer_alt_name(e, l, m, X509_non_critical, B_GN, B_GNL); }
+static int b_crl_fresh(uint8_t *e, size_t *l, size_t m) { return x509_crl_exts_add_freshest_crl(e, l, m, X509_non_critical, "http://a.example/d.crl", 22, NULL, 0); }
+static int b_crl_aia(uint8_t *e, size_t *l, size_t m) { return x509_crl_exts_add_authority_info_acess(e, l, m, X509_non_critical, "http://a.example/ca.crt", 23, NULL, 0); }
+static const struct { const char *name; bld_f f; } BLD[] = { { "authority_key_identifier", b_aki }, { "default_authority_key_identifier", b_aki_def }, { "subject_key_identifier", b_ski }, { "subject_key_identifier_ex", b_ski_ex }, { "key_usage", b_ku }, { "subject_alt_name", b_san }, { "issuer_alt_name", b_ian }, { "policy_constraints", b_pc }, { "basic_constraints", b_bc }, { "ext_key_usage", b_eku }, { "crl_distribution_points", b_cdp }, { "inhibit_any_policy", b_iap }, { "authority_info_access", b_aia },
+	{ "crl_number", b_crlnum }, { "delta_crl_indicator", b_delta }, { "crl_authority_key_identifier", b_crl_aki }, { "crl_default_authority_key_identifier", b_crl_aki_def }, { "crl_issuer_alt_name", b_crl_ian }, { "crl_freshest_crl", b_crl_fresh }, { "crl_authority_info_access", b_crl_aia } };
+#define NBLD ((int)(sizeof BLD / sizeof BLD[0]))
+static void blk_builders(void) {
+	if (!vh_block_begin("extension-builders-append")) return; for (int i = 0; i < 20; i++) B_KID[i] = (uint8_t)(0xc0 + i); B_KEY = &CK[3]; B_GNL = 0; if (x509_general_names_add_dns_name(B_GN, &B_GNL, sizeof B_GN, "host.example") != 1) vh_harness_error("general name");
+	for (int b = 0; b < NBLD; b++) for (int p1 = -1; p1 < NBLD; p1++) { if (!vh_next()) continue; if (p1 == b) continue; /* prefix list: empty (p1 = -1), one other extension, or that one plus key_usage-or-basic_constraints */
+		for (int two = 0; two < (p1 < 0 ? 1 : 2); two++) { uint8_t alone[600], list[1600], before[1600]; size_t al = 0, ll = 0; memset(alone, 0, sizeof alone); if (BLD[b].f(alone, &al, sizeof alone) != 1) { if (p1 < 0) vh_obs("builder %s refuses its sample arguments", BLD[b].name); continue; }
+			memset(list, 0xEE, sizeof list); if (p1 >= 0 && BLD[p1].f(list, &ll, sizeof list) != 1) continue; if (two) { int q = (b == 4 || p1 == 4) ? 8 : 4; if (q == b || q == p1) continue; if (BLD[q].f(list, &ll, sizeof list) != 1) continue; }
+			memcpy(before, list, sizeof list); size_t l0 = ll; int r = BLD[b].f(list, &ll, sizeof list); int kk[3] = { b, p1, two }; vh_eval(vh_hash(kk, sizeof kk, 881)); char key[200];
+			if (r != 1) { snprintf(key, sizeof key, "C15:extension-builders:%s:refuses-a-non-empty-list", BLD[b].name); vh_viol(key, "\"after\":\"%s\",\"elements_before\":%d", p1 < 0 ? "" : BLD[p1].name, p1 < 0 ? 0 : 1 + two); continue; }
+			if (ll != l0 + al || memcmp(list, before, l0) || memcmp(list + l0, alone, al) || memcmp(list + l0 + al, before + l0 + al, sizeof list - l0 - al)) { snprintf(key, sizeof key, "C15:extension-builders:%s:does-not-append", BLD[b].name); vh_viol(key, "\"after\":\"%s\",\"elements_before\":%d,\"len_before\":%zu,\"len_after\":%zu,\"own_len\":%zu,\"prefix_intact\":%d", p1 < 0 ? "" : BLD[p1].name, p1 < 0 ? 0 : 1 + two, l0, ll, al, !memcmp(list, before, l0)); } }
+		if (p1 < 0) vh_sample("{\"block\":\"extension-builders-append\",\"builder\":\"%s\"}", BLD[b].name); }
+}
 /* extension values of every size around the DER length-form boundaries (127/128, 255/256): issued certificate must carry a well-formed
    extension block in which every extension supplied is found again, with its criticality and exactly its value */
 static void blk_ext_sizes(void) {
@@ -219,5 +256,5 @@ static void blk_names(void) {
 		if (ok && c.n) { ok = 0; why = "extra-rdn"; } if (!ok) { snprintf(key, sizeof key, "C15:names:%s", why); vh_viol(key, "\"kinds\":\"%d%d%d%d%d%d\",\"attribute\":%d,\"name\":\"%s\"", kind[0], kind[1], kind[2], kind[3], kind[4], kind[5], at, vh_hex(nm, nl > 120 ? 120 : nl)); continue; }
 		if ((mask % 7) == 0 || vh_thorough) { static uint8_t cert[2048]; uint8_t *p = cert; size_t cl = 0; uint8_t serial[2] = { 2, (uint8_t)mask }; venv_reset(7000 + mask); r = x509_cert_sign_to_der(X509_version_v3, serial, 2, OID_sm2sign_with_sm3, NAME_I, NIL, VENV_NOW - 1000, VENV_NOW + 100000, nm, nl, &CK[0], NULL, 0, NULL, 0, NULL, 0, &CK[1], SM2_DEFAULT_ID, 16, &p, &cl); const uint8_t *sub; size_t subl; if (r != 1 || x509_cert_get_subject(cert, cl, &sub, &subl) != 1 || subl != nl || memcmp(sub, nm, nl)) { vh_viol("C15:names:subject-not-returned-as-supplied", "\"kinds\":\"%d%d%d%d%d%d\",\"ret\":%d", kind[0], kind[1], kind[2], kind[3], kind[4], kind[5], r); } } }
 }
-static void body(void) { blk_certs(); blk_unique_ids(); blk_general_names(); blk_ext_content(); blk_reqs(); blk_crls(); blk_crl_entry_exts(); blk_ext_sizes(); blk_names(); }
+static void body(void) { blk_certs(); blk_unique_ids(); blk_general_names(); blk_ext_content(); blk_reqs(); blk_crls(); blk_crl_entry_exts(); blk_builders(); blk_ext_sizes(); blk_names(); }
 int main(int argc, char **argv) { vh_init(argc, argv); if (!freopen("/dev/null", "w", stderr)) {} creds_init(); make_name(NAME_I, &NIL, "Issuer"); x509_name_set(NAME_S, &NSL, sizeof NAME_S, "CN", "Beijing", "Haidian", "PKU", "CS", "Subject"); vh_guarded("C15", body, 120); return vh_finish(); }
